@@ -132,11 +132,17 @@ def _tet_rule(res, fn):
     outer_assigns = {n_.targets[0].id: n_.value for n_ in ast.walk(fn.node) if isinstance(n_, ast.Assign)
                      and len(n_.targets) == 1 and isinstance(n_.targets[0], ast.Name)}
     vol_names = {nm for nm, v_ in outer_assigns.items() if nm not in local_ti and "linalg.det" in ast.unparse(v_)}
+    if not simp_names:
+        # corner slices hoisted out of the integrator: the 3-index subscripts of the outer function
+        simp_names = {n_.value.id for n_ in ast.walk(fn.node) if isinstance(n_, ast.Subscript) and isinstance(n_.value, ast.Name)
+                      and isinstance(n_.slice, ast.Tuple) and len(n_.slice.elts) == 3 and n_.value.id not in local_ti}
     # symbolic vertices a, b, c with coordinates (u, v): f = u * v  (covers squares by u = v)
     P = {k_: (Poly.atom(f"{k_}u"), Poly.atom(f"{k_}v")) for k_ in "abc"}
     env = {}
 
-    def vec(n):
+    def vec(n, depth=0):
+        if isinstance(n, ast.Name) and n.id in outer_assigns and n.id not in local_ti and depth < 4:
+            return vec(outer_assigns[n.id], depth + 1)       # a corner slice hoisted out of the integrator
         if isinstance(n, ast.Subscript) and isinstance(n.value, ast.Name) and n.value.id in simp_names:
             elts = n.slice.elts if isinstance(n.slice, ast.Tuple) else [n.slice]
             try:
@@ -156,6 +162,8 @@ def _tet_rule(res, fn):
                 return env[n.id]
             if n.id in vol_names:
                 return Poly.atom("V")
+            if n.id in outer_assigns and n.id not in local_ti:
+                return ev(outer_assigns[n.id])                # e.g. weights = volumes / 20 hoisted out of the integrator
             return None
         if isinstance(n, ast.Constant) and isinstance(n.value, (int, float)):
             return Poly.const(n.value)
